@@ -833,12 +833,19 @@ class DestHandler:
                 >= self._params.remote_cfg.positive_ack_timer_expiration_limit
             ):
                 self._declare_fault(ConditionCode.POSITIVE_ACK_LIMIT_REACHED)
+                if self.states.state == CfdpState.IDLE:
+                    # The transaction was abandoned.
+                    return None
                 # This is a bit of a hack: We want the transfer completion and the corresponding
-                # Finished PDU to be re-sent in the same FSM cycle. However, the call
-                # order in the FSM prevents this from happening, so we just call the state machine
-                # again manually.
-                if self._params.completion_disposition == CompletionDisposition.CANCELED:
-                    return self.state_machine()
+                # Finished PDU to be sent in the same FSM cycle. However, the call
+                # order in the FSM prevents this from happening, so we perform those steps
+                # manually.
+                if self.states.step == TransactionStep.TRANSFER_COMPLETION:
+                    self._handle_transfer_completion()
+                    if self.states.step == TransactionStep.SENDING_FINISHED_PDU:
+                        self._prepare_finished_pdu()
+                        self._handle_finished_pdu_sent()
+                    return None
             self._params.positive_ack_params.ack_timer.reset()
             self._params.positive_ack_params.ack_counter += 1
             self._prepare_finished_pdu()
@@ -1181,7 +1188,8 @@ class DestHandler:
         if fh is None:
             raise ValueError(f"invalid condition code {cond!r} for fault declaration")
         if fh == FaultHandlerCode.NOTICE_OF_CANCELLATION:
-            self._notice_of_cancellation(cond)
+            if not self._notice_of_cancellation(cond):
+                return fh
         elif fh == FaultHandlerCode.NOTICE_OF_SUSPENSION:
             self._notice_of_suspension()
         elif fh == FaultHandlerCode.ABANDON_TRANSACTION:
@@ -1189,10 +1197,27 @@ class DestHandler:
         self.cfg.default_fault_handlers.report_fault(transaction_id, cond, progress)
         return fh
 
-    def _notice_of_cancellation(self, condition_code: ConditionCode) -> None:
+    def _notice_of_cancellation(self, condition_code: ConditionCode) -> bool:
+        """Returns whether the fault still needs to be reported."""
+        # CFDP standard 4.11.2.3.2: Any fault declared in the course of transferring
+        # the Finished (cancel) PDU must result in abandonment of the transaction.
+        if (
+            self._params.completion_disposition == CompletionDisposition.CANCELED
+            and self.states.step == TransactionStep.WAITING_FOR_FINISHED_ACK
+        ):
+            assert self._params.transaction_id is not None
+            # We still call the abandonment callback to ensure the fault is logged.
+            self.cfg.default_fault_handlers.abandoned_cb(
+                self._params.transaction_id,
+                condition_code,
+                self._params.fp.progress,
+            )
+            self._abandon_transaction()
+            return False
         self.states.step = TransactionStep.TRANSFER_COMPLETION
         self._params.finished_params.condition_code = condition_code
         self._params.completion_disposition = CompletionDisposition.CANCELED
+        return True
 
     def _notice_of_suspension(self) -> None:
         # TODO: Implement
